@@ -41,6 +41,9 @@ def run(ctx: Ctx) -> None:
     fields(ctx)
     eager_safe(ctx)
     lazy_callback_rules(ctx, "R-C13-LAZY")
+    from .shared import lazy_slot_writers
+
+    lazy_slot_writers(ctx, "R-C13-LAZY")
     validate(ctx)
     config_buckets(ctx)
 
@@ -231,6 +234,14 @@ def fields(ctx: Ctx, rule="R-C13-FIELDS") -> None:
     ctx.require(len(gb) == 1, f"{j.qualname}: get_bucket call not found")
     ctx.check(dotted(C.arg(gb[0], 0, "id_")) == "self.result_id" and "_rb" in (dotted(gb[0].func) or ""), rule, j, "Job.result reads result_id from the results broker",
               "same id, results broker", f"Job.result reads {unparse(gb[0])[:80]}", node=gb[0], instance="Job.result id")
+    gj = ctx.cfg(j)
+    fetch = [n.id for n in gj.calls() if isinstance(n.ast.func, ast.Attribute) and n.ast.func.attr == "get_bucket"]
+    rets_j = [n.id for n in gj.nodes if n.kind == "return"]
+    self_stores = [n for n in gj.nodes if n.kind == "store" and (n.target or "").startswith("self.")]
+    ctx.check(bool(fetch) and all(flow.must_pass(gj, gj.entry.id, [r_], fetch, flow.NORMAL_KINDS) for r_ in rets_j) and not self_stores, rule, j,
+              "Job.result asks the results broker on every read", "no cached copy on the job object",
+              "Job.result can answer without fetching the bucket (a copy kept on the Job object): after a retry or the next recurring run has overwritten the stored result the same Job "
+              "object keeps returning the outcome of an earlier execution", instance="Job.result not cached")
     cp = ctx.func("repid.job.Job._construct_parameters")
     rcons = C.constructions(ctx, cp, [cp.node], "RESULT_CLASS")
     ctx.require(len(rcons) == 1, f"{cp.qualname}: RESULT_CLASS(...) not found")
